@@ -120,6 +120,10 @@ static void gen_c03(const std::string& tier, std::vector<Case>& cases) {
                     if (bit == 0 || bit == 11 || bit == 17) continue;
                     uint32_t f = F_STANDARD ^ (1u << bit);
                     Case c; c.fund = S.fund; c.tx = S.tx; c.flags = f; c.label = base + " valid flags=STANDARD^" + alpha::flag_name(bit); c.klass = std::string("valid-flags^") + alpha::flag_name(bit); cases.push_back(c);
+                    // ... and on the spend whose whole witness is taken away: without CLEANSTACK the program left on the stack by the
+                    // legacy evaluation of a witness-program output must not pass for a valid final stack
+                    size_t wr = devs.size(); for (size_t k = 0; k < devs.size(); k++) if (devs[k].first == "whole witness removed") wr = k;
+                    if (wr < devs.size() && !annex) { Case c2; c2.fund = S.fund; c2.tx = devs[wr].second; c2.flags = f; c2.label = base + " " + devs[wr].first + " flags=STANDARD^" + alpha::flag_name(bit); c2.klass = klass_of(devs[wr].first) + "-flags^" + alpha::flag_name(bit); cases.push_back(c2); }
                     if (first_shape) for (size_t di : {size_t(0), devs.size() - 5}) { Case c2; c2.fund = S.fund; c2.tx = devs[di].second; c2.flags = f; c2.label = base + " " + devs[di].first + " flags=STANDARD^" + alpha::flag_name(bit); c2.klass = klass_of(devs[di].first) + "-flags^" + alpha::flag_name(bit); cases.push_back(c2); }
                 }
                 // thorough: every pair of non-activation flag toggles on the valid spend of the first shape
@@ -167,6 +171,25 @@ static void gen_c03(const std::string& tier, std::vector<Case>& cases) {
         { Case c; c.fund = S.fund; c.tx = S.tx; c.label = base + " valid"; c.klass = "valid-signature-free-" + kind; cases.push_back(c); }
         std::vector<std::pair<std::string, Tx>> devs; deviations(S, false, devs);
         for (auto& d : devs) { Case c; c.fund = S.fund; c.tx = d.second; c.select = -1; c.label = base + " " + d.first; c.klass = "signature-free-" + kind + ":" + klass_of(d.first); cases.push_back(c); }
+    }
+    // every opcode byte, in a branch that is not executed and in one that is, as witness script, tapscript leaf and P2SH redeem script:
+    // validation fails on an unknown opcode only when it executes (disabled opcodes and OP_VERIF/OP_VERNOTIF fail wherever they stand, and
+    // in a tapscript 0x50, 0x62, 0x7e.. and 0xbb..0xfe are OP_SUCCESSx); the session must not refuse what validation accepts
+    for (int opb = 0x4f; opb <= 0xff; opb++) for (int executed = 0; executed < 2; executed++) {
+        if (!th && !(opb == 0x50 || opb == 0x62 || opb == 0x65 || opb == 0x7e || opb == 0x89 || opb == 0xb0 || opb >= 0xb9 || opb == 0x61) ) continue;
+        if (!th && opb > 0xbc && opb < 0xfd && opb != 0xd0) continue;
+        if (opb == 0x63 || opb == 0x64 || opb == 0x67 || opb == 0x68) continue;   // the conditionals themselves would change the frame
+        bytes body{uint8_t(executed ? 0x51 : 0x00), 0x63, uint8_t(opb), 0x68, 0x51};
+        char ob[8]; snprintf(ob, 8, "0x%02x", opb);
+        for (std::string type : {"p2wsh-checksig", "p2tr-script"}) {
+            gen::Shape sh = shape_of(type, gen::is_taproot_type(type) ? 0 : 1, 1); sh.leaf_kind = "raw"; sh.raw_script = body;
+            gen::Spend S = gen::make_spend(type, sh, 1, 1, false);
+            Case c; c.fund = S.fund; c.tx = S.tx; c.label = type + " script with opcode byte " + ob + (executed ? " in an executed branch" : " in a branch that is not executed"); c.klass = std::string("opcode-byte-") + (executed ? "executed" : "unexecuted"); cases.push_back(c);
+        }
+        { gen::Spend S = gen::make_spend("p2pk", shape_of("p2pk", 1, 1));
+          Case c; c.fund = S.fund; c.tx = S.tx; bytes h = hash160(body); bytes spk{0xa9, 0x14}; spk.insert(spk.end(), h.begin(), h.end()); spk.push_back(0x87);
+          c.fund.vout[1].spk = spk; c.tx.vin[1].prev_hash = txid(c.fund); c.tx.vin[1].script_sig = push_raw(body);
+          c.label = std::string("p2sh redeem script with opcode byte ") + ob + (executed ? " in an executed branch" : " in a branch that is not executed"); c.klass = std::string("opcode-byte-") + (executed ? "executed" : "unexecuted"); cases.push_back(c); }
     }
     // tapscript leaves that check their signature several times: the BIP342 budget is 50 + the size of the WHOLE witness (script and
     // control block included), so the same leaf is valid or invalid depending on the path length and the annex
@@ -218,6 +241,21 @@ static void gen_c03_extended(std::vector<Case>& cases) {
                 f.vout[1].spk = spk; t.vin[s2.pos].prev_hash = txid(f); });
         }
     }
+    // witness programs of every version and length spent WITHOUT a witness, native (scriptSig empty or not) and P2SH-wrapped (scriptSig the
+    // canonical push of the program, or that push with one more push in front): validation applies the witness rules to the empty witness -
+    // known programs fail, unknown ones are anyone-can-spend unless discouraged - and waives the clean-stack rule where they pass
+    { gen::Spend S = gen::make_spend("p2pk", sh);
+      for (int ver : {0, 1, 2, 16}) for (int plen : {2, 20, 31, 32, 33, 40}) for (int form = 0; form < 4; form++)
+        for (uint32_t fl : {F_STANDARD, F_STANDARD ^ F_CLEANSTACK, F_STANDARD ^ F_DISCOURAGE_UPGRADABLE_WITNESS_PROGRAM, F_STANDARD ^ F_CLEANSTACK ^ F_DISCOURAGE_UPGRADABLE_WITNESS_PROGRAM}) {
+          bytes prog{uint8_t(ver == 0 ? 0x00 : 0x50 + ver), uint8_t(plen)}; for (int i = 0; i < plen; i++) prog.push_back(uint8_t(0x42 + i));
+          static const char* forms[] = {"native, empty scriptSig", "native, scriptSig OP_1", "wrapped, canonical push", "wrapped, OP_1 before the push"};
+          mk("witness program v" + std::to_string(ver) + " of " + std::to_string(plen) + " bytes spent without witness (" + forms[form] + ") under " + alpha::flags_str(fl & (F_CLEANSTACK | F_DISCOURAGE_UPGRADABLE_WITNESS_PROGRAM)), S, [&](Tx& f, Tx& t) {
+              bytes ss;
+              if (form < 2) { f.vout[1].spk = prog; if (form == 1) ss = unhex("51"); }
+              else { bytes h = hash160(prog); bytes spk{0xa9, 0x14}; spk.insert(spk.end(), h.begin(), h.end()); spk.push_back(0x87); f.vout[1].spk = spk; if (form == 3) ss = unhex("51"); bytes p = push_raw(prog); ss.insert(ss.end(), p.begin(), p.end()); }
+              t.vin[1].prev_hash = txid(f); t.vin[1].script_sig = ss; });
+          cases.back().flags = fl; cases.back().klass = std::string("extended:program-without-witness:") + forms[form];
+      } }
     // two inputs of the spending transaction spend DIFFERENT outputs of the same funding transaction: --select=k (and the automatic choice of
     // the first spender) must take the locking script and amount of the output that very input references
     { gen::Spend S = gen::make_spend("p2pk", sh);
